@@ -35,13 +35,21 @@ def check(run):
                        "x > 1e-5 agree to 1e-5 relative whenever both runs return un-warned; distinct = (species, T, P, controls)")
     run.cov["trusted_base"] = common.TRUSTED_COMMON + [
         "hand-written control model coq/model/Retry.v (numerical step abstract), tied by replaying recorded stopping quantities (hook)",
-        "NOT proved (tested below): convergence inside the documented window, start-estimate independence, effect of rtol on the value"]
+        "uniqueness of the fixed point (thm/C06_start.v) is for the ideal mixture: reference energies and lowerings equal in the two states",
+        "NOT proved (tested below): convergence inside the documented window, that every start estimate reaches the (unique) fixed point, effect of rtol on the value beyond the last-step bound"]
     broken = []
     res = common.prove("thm/C06.v")
     run.add_proof(res, "make -f Makefile.coq thm/C06.vo")
     if not res["ok"]:
         broken.append({"stage": "proof", "detail": res["error"]})
         run.note(f"proof obligation failed: {res['error']}")
+    # start-estimate / rtol clauses: uniqueness of the fixed point and the meaning of the stopping quantity (over R; kept apart from
+    # thm/C06.v, which is closed under the global context)
+    res2 = common.prove("thm/C06_start.v")
+    run.add_proof(res2, "make -f Makefile.coq thm/C06_start.vo")
+    if not res2["ok"]:
+        broken.append({"stage": "proof", "detail": {"file": "thm/C06_start.v", "error": res2["error"]}})
+        run.note(f"proof obligation failed (thm/C06_start.v): {res2['error']}")
     okd, dlog = common.build_driver("mix")
     found = None
     hist = {}
